@@ -528,6 +528,10 @@ def exec_step(step, sess, chains, audit):
             if step.get('delete_data'):
                 kw['delete_data'] = True
             c.force(targets, **kw)
+    elif op == 'reset':
+        c = get_chain()
+        for n in step['tasks']:
+            c.tasks[n].reset_data()
     elif op == 'inspect':
         c = get_chain()
         what = step['what']
